@@ -15,3 +15,14 @@ open BHS.Props.C06
 #print axioms C06_tick_drops_lagging_peer
 #print axioms exSetup
 #print axioms C06_checkpoint_cursor_counterexample
+#print axioms C06_linear_from_any_round
+#print axioms C06_fork
+#print axioms C06_no_lc_header_stops
+#print axioms C06_no_lc_header_quiet
+#print axioms C06_any_choice
+#print axioms C06_first_peer_any_order
+#print axioms C06_late_announcement
+#print axioms C06_pool_stable
+#print axioms C06_pool_of_announcements
+#print axioms C06_peer_loss_any_round
+#print axioms C06_stalled_peer_replaced
